@@ -951,6 +951,15 @@ impl Interpreter {
 
         let result = self.run_vm_to_completion(vm);
 
+        // A suspended run is continued by step(): it stays in its module scope, and step()'s
+        // terminal bookkeeping restores the environment and stores the exports when it ends
+        if let Ok(StepResult::Suspended { .. }) = &result {
+            self.active_module_path = module_path;
+            self.active_saved_env = saved_env;
+            self.active_module_env = module_env;
+            return result;
+        }
+
         // Restore the environment the run was started from
         if let Some(saved) = saved_env {
             self.env = saved;
